@@ -55,9 +55,16 @@ pub struct Case {
     pub entropy: u64,
     pub file_mode: bool,
     pub handler: Option<Handler>,
+    /// false: the handler is not registered before the run; a `reg` line registers it while the script runs
+    #[serde(default = "yes")]
+    pub handler_initially: bool,
     pub init: Vec<(String, String)>,
     pub lines: Vec<Line>,
     pub budget: u64,
+}
+
+fn yes() -> bool {
+    true
 }
 
 pub const NAMES: [&str; 6] = ["k0", "k1", "k2", "k3", "k4", "k5"];
@@ -110,6 +117,10 @@ pub fn render(lines: &[Line]) -> String {
                     for a in &l.args {
                         parts.push(render_arg(a));
                     }
+                } else if let Some(o) = &l.out {
+                    // an output variable without a command: a value-less continue, i.e. the variable is deleted
+                    parts.push(o.clone());
+                    parts.push("=".to_string());
                 }
                 text.push_str(&parts.join(" "));
             }
@@ -207,6 +218,7 @@ pub fn model(case: &Case, source: &str) -> ModelRun {
         }
     }
     let mut visits: Vec<usize> = vec![0; case.lines.len()];
+    let mut handler_present = case.handler.is_some() && case.handler_initially;
     let mut handler_visits = 0usize;
     let mut total = 0u64;
     let mut calls = vec![];
@@ -225,13 +237,45 @@ pub fn model(case: &Case, source: &str) -> ModelRun {
         let l = &case.lines[pc];
         let cmd = match (&l.kind, &l.cmd) {
             (LineKind::Cmd, Some(c)) => c,
+            (LineKind::Cmd, None) => {
+                if l.out.is_some() {
+                    probes.push("output-only-line");
+                }
+                set_out(&mut vars, &l.out, None);
+                pc += 1;
+                continue;
+            }
             _ => {
                 pc += 1;
                 continue;
             }
         };
         // resolve the command
-        let is_handler_name = case.handler.as_ref().map(|h| cmd == "on_error" || (h.as_alias && cmd == "hh")).unwrap_or(false);
+        let is_handler_name = handler_present && case.handler.as_ref().map(|h| cmd == "on_error" || (h.as_alias && cmd == "hh")).unwrap_or(false);
+        // `reg` / `unreg`: harness commands that (un)register the handler while the script runs
+        if cmd == "reg" || cmd == "unreg" {
+            let args: Vec<String> = l.args.iter().map(|a| bind(a, &vars)).collect();
+            calls.push(Call { name: cmd.clone(), args, vars: vars.clone() });
+            total += 1;
+            if total > case.budget {
+                set_out(&mut vars, &l.out, None);
+                end = End::Ok(vars);
+                break;
+            }
+            if cmd == "reg" {
+                if case.handler.is_some() {
+                    if !handler_present {
+                        probes.push("handler-registered-during-run");
+                    }
+                    handler_present = true;
+                }
+            } else {
+                handler_present = false;
+            }
+            set_out(&mut vars, &l.out, None);
+            pc += 1;
+            continue;
+        }
         let name: String = if is_handler_name {
             if case.handler.as_ref().unwrap().as_alias { "hh".to_string() } else { "on_error".to_string() }
         } else {
@@ -304,7 +348,7 @@ pub fn model(case: &Case, source: &str) -> ModelRun {
                 if jumped {
                     probes.push("error-inside-jumped-to-region");
                 }
-                if let Some(h) = &case.handler {
+                if let Some(h) = case.handler.as_ref().filter(|_| handler_present) {
                     let hname = if h.as_alias { "hh" } else { "on_error" };
                     calls.push(Call {
                         name: hname.to_string(),
@@ -471,13 +515,53 @@ impl Command for H {
     }
 }
 
+#[derive(Clone)]
+struct Reg {
+    register: bool,
+}
+
+impl Command for Reg {
+    fn name(&self) -> String {
+        if self.register { "reg".to_string() } else { "unreg".to_string() }
+    }
+    fn clone_and_box(&self) -> Box<dyn Command> {
+        Box::new(self.clone())
+    }
+    fn run(&self, ctx: CommandInvocationContext) -> CommandResult {
+        observe(&self.name(), &ctx);
+        let (over, spec) = WORLD.with(|w| {
+            let mut w = w.borrow_mut();
+            let w = w.as_mut().unwrap();
+            w.total += 1;
+            (w.total > w.case.budget, w.case.handler.clone())
+        });
+        if over {
+            return CommandResult::Exit(None);
+        }
+        if self.register {
+            if let Some(h) = spec {
+                if !ctx.commands.exists("on_error") {
+                    let _ = ctx.commands.set(Box::new(H { as_alias: h.as_alias }));
+                }
+            }
+        } else {
+            ctx.commands.remove("on_error");
+        }
+        CommandResult::Continue(None)
+    }
+}
+
 pub fn build_context(case: &Case) -> Context {
     let mut context = Context::new();
     for n in NAMES {
         context.commands.set(Box::new(K { name: n.to_string() })).unwrap();
     }
+    context.commands.set(Box::new(Reg { register: true })).unwrap();
+    context.commands.set(Box::new(Reg { register: false })).unwrap();
     if let Some(h) = &case.handler {
-        context.commands.set(Box::new(H { as_alias: h.as_alias })).unwrap();
+        if case.handler_initially {
+            context.commands.set(Box::new(H { as_alias: h.as_alias })).unwrap();
+        }
     }
     for (k, v) in &case.init {
         context.variables.insert(k.clone(), v.clone());
@@ -583,13 +667,15 @@ pub fn generate_case(rng: &mut Rng) -> Case {
             continue;
         }
         let label = if rng.chance(1, 4) { Some(rng.pick(&LABELS).to_string()) } else { None };
-        let has_cmd = label.is_none() || rng.chance(5, 6);
+        let has_cmd = if label.is_none() { !rng.chance(1, 25) } else { rng.chance(5, 6) };
         let cmd = if !has_cmd {
             None
         } else if rng.chance(1, 40) {
             Some("zz".to_string())
         } else if handler.is_some() && rng.chance(1, 40) {
             Some("on_error".to_string())
+        } else if handler.is_some() && rng.chance(1, 25) {
+            Some(if rng.chance(3, 4) { "reg".to_string() } else { "unreg".to_string() })
         } else {
             let n = *rng.pick(&NAMES);
             let al = aliases_of(n);
@@ -599,7 +685,7 @@ pub fn generate_case(rng: &mut Rng) -> Case {
                 Some(n.to_string())
             }
         };
-        let out = if cmd.is_some() && rng.chance(1, 2) { Some(rng.pick(&VARS).to_string()) } else { None };
+        let out = if (cmd.is_some() && rng.chance(1, 2)) || (cmd.is_none() && rng.chance(1, 2)) { Some(rng.pick(&VARS).to_string()) } else { None };
         let n_args = if cmd.is_some() { rng.usize(4) } else { 0 };
         let args = (0..n_args).map(|_| gen_arg(rng)).collect();
         let n_ans = 1 + rng.usize(3);
@@ -611,6 +697,7 @@ pub fn generate_case(rng: &mut Rng) -> Case {
     Case {
         entropy: rng.next_u64(),
         file_mode: rng.chance(1, 4),
+        handler_initially: rng.chance(2, 3),
         handler,
         init,
         lines,
@@ -667,7 +754,7 @@ impl Prop for C03 {
             assumptions: &["arguments and values come from a benign subset (no $ % \\ # quote corners: those belong to C01/C02)", "the rendered text parses to the intended instruction (C01, not claimed)"],
             needs_jail: true,
             needs_duck: false,
-            expected_probes: &["error-inside-jumped-to-region", "cont-none-deletes-after-goto", "duplicate-label-taken", "handler-crashes", "handler-exits", "jump-past-end", "exit-non-numeric", "file-mode-handler"],
+            expected_probes: &["error-inside-jumped-to-region", "cont-none-deletes-after-goto", "duplicate-label-taken", "handler-crashes", "handler-exits", "jump-past-end", "exit-non-numeric", "file-mode-handler", "handler-registered-during-run"],
         }
     }
     fn runs(&self, tier: &str) -> u64 {
